@@ -6,7 +6,9 @@ R2  shape typing of every combinator application reachable from the production g
     language-preserving on a clean operand (start without in-edge, stop without out-edge).
 R3  every production grammar: as-built language == regex language (exact DFA equivalence, shortest counterexample); the two
     decoder automata equal the fresh union of their (as-built) members with the same tags; bounded check of the model itself.
-R4  compile(): density assert on every path; is_accepting / is_terminal / tags dataflow facts (MIR).
+R4  compile(): density assert on every path; is_accepting / is_terminal / tags dataflow facts (MIR); R4-TABLE: geometry of the flattened
+    transition table — the stride DFA::transition multiplies the state by, the stride compile() stores and the number of entries each state
+    contributes are all |alphabet| = 256 (symbols 0..=255 in order, entry j looked up as edges.get(&j)).
 """
 import re
 import time
@@ -25,7 +27,10 @@ CLAIM = {
             "language of the expression (exact DFA equivalence with a shortest counterexample), never the empty input, and each decoder automaton is the "
             "tagged union of its registered members; the as-built model itself is checked exhaustively on all expressions up to 2 (quick) / 4 (thorough) "
             "operators; (R4) compile() guards every emitted table row by the density assert and assigns is_accepting/is_terminal/tags from "
-            "contains(stop)/empty row/member tags. Not decided: the power-set worklist and ε-closure of compile() beyond R4, and termination.",
+            "contains(stop)/empty row/member tags; (R4-TABLE, 4 instances) DFA::transition indexes the flattened table by <stride field> * state + symbol, "
+            "compile() stores a constant stride equal to the number of values of the symbol type (256), every state contributes exactly the entries for symbols "
+            "0..=255 in order and entry j is edges.get(&j) of that state's edge map - so stepping on any byte stays in the row of its own state (a dead "
+            "transition is None, never another state's entry). Not decided: the power-set worklist and ε-closure of compile() beyond R4, and termination.",
     "technique": "role dataflow over combinator bodies (syn AST) + own Thompson builder driven by the read templates + DFA equivalence; MIR provenance terms and must-pass for compile()",
     "design_ref": "DESIGN.md §5 C15, §3, §11",
 }
@@ -570,6 +575,298 @@ def rule_r4(ctx):
 
 
 # ------------------------------------------------------------------------------------------------
+# R4-TABLE: geometry of the flattened transition table (row width written by compile == stride read by DFA::transition == |alphabet|)
+# ------------------------------------------------------------------------------------------------
+class _NotConst(Exception):
+    pass
+
+
+_UINT_BITS = {"u8": 8, "u16": 16, "u32": 32, "u64": 64, "usize": 64}
+
+
+def _closure_agg(prog, closure_body):
+    """(parent body, aggregate rvalue) that creates the closure"""
+    parent = prog.body(closure_body.j.get("closure_parent") or "")
+    if parent is None:
+        return None, None
+    aggs = [s["rv"] for i, si, s in parent.assigns() if s["rv"]["k"] == "agg" and s["rv"]["ak"] == "closure" and s["rv"].get("def") == closure_body.path]
+    return (parent, aggs[0]) if len(aggs) == 1 else (parent, None)
+
+
+def const_int(prog, body, x, depth=0):
+    """value of a MIR operand/place that is a compile-time constant of the function: integer literals, integer casts, + - * of such, moves,
+    references, and variables captured by a closure (followed into the enclosing body).  Raises _NotConst (with the construct) otherwise."""
+    if depth > 40:
+        raise _NotConst("definition chain too long")
+    if x.get("k") == "const":
+        c = x["c"]
+        if "int" not in c:
+            raise _NotConst("constant %s" % c.get("text", "?"))
+        return int(c["int"])
+    place = x["place"] if "place" in x else x
+    l = place["l"]
+    proj = [e for e in place["p"] if e["k"] != "deref"]
+    if body.kind == "Closure" and l == 1:
+        if len(proj) != 1 or proj[0]["k"] != "field":
+            raise _NotConst("captured place %s" % _proj("_1", place["p"]))
+        parent, agg = _closure_agg(prog, body)
+        idx = proj[0].get("i", int(proj[0]["name"]) if str(proj[0].get("name", "")).isdigit() else None)
+        if agg is None or idx is None or idx >= len(agg["fields"]):
+            raise _NotConst("capture %s of %s" % (proj[0].get("name"), body.path))
+        return const_int(prog, parent, agg["fields"][idx], depth + 1)
+    if 0 < l <= body.arg_count:
+        raise _NotConst("argument %d" % l)
+    ds = body.defs_of(l)
+    if len(ds) != 1:
+        raise _NotConst("local _%d has %d definitions" % (l, len(ds)))
+    bb, si, rv = ds[0]
+    if si == "term":
+        raise _NotConst("result of %s" % _short_fn(callee_name(rv)))
+    k = rv["k"]
+    if k == "bin":
+        op = rv["op"]
+        checked = op.endswith("WithOverflow")
+        if (checked and not (len(proj) == 1 and proj[0]["k"] == "field" and str(proj[0]["name"]) == "0")) or (not checked and proj):
+            raise _NotConst("projection of %s" % op)
+        a = const_int(prog, body, rv["a"], depth + 1)
+        b = const_int(prog, body, rv["b"], depth + 1)
+        op = op.replace("WithOverflow", "").replace("Unchecked", "")
+        if op == "Add":
+            return a + b
+        if op == "Sub":
+            return a - b
+        if op == "Mul":
+            return a * b
+        if op == "Shl" and 0 <= b < 64:
+            return a << b
+        if op == "Shr" and 0 <= b < 64:
+            return a >> b
+        if op == "Div" and b:
+            return a // b
+        if op in ("BitOr", "BitAnd", "BitXor"):
+            return {"BitOr": a | b, "BitAnd": a & b, "BitXor": a ^ b}[op]
+        raise _NotConst("operator %s" % op)
+    if proj:
+        raise _NotConst("projection %s" % _proj("_%d" % l, place["p"]))
+    if k == "use":
+        return const_int(prog, body, rv["a"], depth + 1)
+    if k == "ref":
+        return const_int(prog, body, rv["place"], depth + 1)
+    if k == "cast" and rv.get("ck") == "IntToInt":
+        v = const_int(prog, body, rv["a"], depth + 1)
+        bits = _UINT_BITS.get(rv.get("ty"))
+        if bits is None:
+            raise _NotConst("cast to %s" % rv.get("ty"))
+        return v & ((1 << bits) - 1)
+    raise _NotConst("rvalue %s" % k)
+
+
+def _single_def(body, x):
+    """(kind, rvalue-or-terminator) of the single definition behind a plain local operand, chasing moves"""
+    for _ in range(20):
+        if x.get("k") == "const":
+            return None, None
+        place = x["place"] if "place" in x else x
+        if place["p"] or 0 < place["l"] <= body.arg_count:
+            return None, None
+        ds = body.defs_of(place["l"])
+        if len(ds) != 1:
+            return None, None
+        bb, si, rv = ds[0]
+        if si != "term" and rv["k"] == "use":
+            x = rv["a"]
+            continue
+        return ("call" if si == "term" else rv["k"]), rv
+    return None, None
+
+
+def row_iterator(prog, body, x, depth=0):
+    """(first symbol, number of items, map closure body or None) of the per-state iterator a row closure returns: a (possibly mapped)
+    integer range with constant bounds.  Raises _NotConst for any other shape (fail closed)."""
+    if depth > 8:
+        raise _NotConst("iterator chain too long")
+    kind, d = _single_def(body, x)
+    if kind == "call":
+        nm = callee_name(d) or ""
+        if re.search(r"Iterator::map$", nm) and len(d["args"]) == 2:
+            lo, n, inner = row_iterator(prog, body, d["args"][0], depth + 1)
+            if inner is not None:
+                raise _NotConst("two map() layers")
+            ck, cd = _single_def(body, d["args"][1])
+            mc = prog.body(cd["def"]) if ck == "agg" and cd.get("ak") == "closure" else None
+            if mc is None:
+                raise _NotConst("map() argument is not a closure literal")
+            return lo, n, mc
+        if re.search(r"IntoIterator>?::into_iter$", nm) and len(d["args"]) == 1:
+            return row_iterator(prog, body, d["args"][0], depth + 1)
+        if re.search(r"RangeInclusive::<\w+>::new$", nm) and len(d["args"]) == 2:
+            lo, hi = const_int(prog, body, d["args"][0]), const_int(prog, body, d["args"][1])
+            return lo, hi - lo + 1, None
+        raise _NotConst("iterator built by %s" % _short_fn(nm))
+    if kind == "agg" and d.get("ak") == "adt" and re.search(r"\bops::Range$", d.get("adt") or "") and len(d["fields"]) == 2:
+        lo, hi = const_int(prog, body, d["fields"][0]), const_int(prog, body, d["fields"][1])
+        return lo, hi - lo, None
+    raise _NotConst("row iterator is not a mapped integer range")
+
+
+def _term_args(term, head):
+    """top-level arguments of a canonical term `head(a, b, ..)` (sa.flow.expr text), or None"""
+    if not (term.startswith(head + "(") and term.endswith(")")):
+        return None
+    inner = term[len(head) + 1:-1]
+    out, depth, cur = [], 0, ""
+    for ch in inner:
+        if ch == "," and depth == 0:
+            out.append(cur.strip())
+            cur = ""
+            continue
+        depth += ch == "("
+        depth -= ch == ")"
+        if depth < 0:
+            return None
+        cur += ch
+    out.append(cur.strip())
+    return out if depth == 0 else None
+
+
+def _ret_operand():
+    return {"k": "move", "place": {"l": 0, "p": []}}
+
+
+def rule_r4_table(ctx):
+    from ..flow import expr as fexpr
+    prog = ctx.prog
+    ctx.rule("R4-TABLE", "flattened table geometry: DFA::transition indexes states[stride*state + symbol]; compile() stores stride = |alphabet| = 256 and emits, per "
+                         "state, exactly one entry for each symbol 0..=255 in order, looked up in that state's edge map", floor=4)
+    where = "automata::NFA::compile"
+    tr = prog.one(r"^automata::DFA::<T>::transition$")
+    comp = prog.one(r"^automata::NFA::<T>::compile$")
+    if tr is None or comp is None:
+        ctx.anchor("R4-TABLE", "transition/compile")
+        return
+    # ---- (1) the stride DFA::transition uses
+    idx_locals = set()
+
+    def scan(place):
+        for e in place.get("p", []):
+            if e["k"] == "index":
+                idx_locals.add(e["l"])
+    for i, si, s in tr.assigns():
+        scan(s["place"])
+        rv = s["rv"]
+        for key in ("a", "b"):
+            if isinstance(rv.get(key), dict) and "place" in rv[key]:
+                scan(rv[key]["place"])
+        if "place" in rv:
+            scan(rv["place"])
+    stride_field = None
+    sym_bits = None
+    sym_ty = None
+    term = None
+    if len(idx_locals) == 1:
+        term = fexpr(tr, {"k": "copy", "place": {"l": list(idx_locals)[0], "p": []}})
+        parts = _term_args(term, "Add")
+        if parts is not None and len(parts) == 2:
+            mul = [p for p in parts if p.startswith("Mul(")]
+            sym = [p for p in parts if not p.startswith("Mul(")]
+            mm = re.fullmatch(r"Mul\((arg\d+(?:\.\w+)+), (arg\d+(?:\.\w+)+)\)", mul[0]) if len(mul) == 1 else None
+            ms = re.fullmatch(r"\(arg(\d+) as usize\)", sym[0]) if len(sym) == 1 else None
+            if mm and ms:
+                fs = [re.fullmatch(r"arg1\.(\w+)", g) for g in mm.groups()]
+                st = [g for g in mm.groups() if re.fullmatch(r"arg[2-9]\.0", g) and g[3] != ms.group(1)]
+                fs = [f.group(1) for f in fs if f]
+                sym_arg = int(ms.group(1))
+                if len(fs) == 1 and len(st) == 1 and 1 < sym_arg <= tr.arg_count and re.search(r"\bDFAState$", tr.local_ty(int(st[0][3]))):
+                    stride_field = fs[0]
+                    sym_ty = tr.local_ty(sym_arg)
+                    sym_bits = _UINT_BITS.get(sym_ty)
+    ctx.instance("R4-TABLE", {"fn": tr.path, "index": term, "stride_field": stride_field, "symbol_type": sym_ty})
+    if stride_field is None or sym_bits is None or sym_bits > 16:
+        ctx.anchor("R4-TABLE", "transition-index", "DFA::transition does not index the table by <self.field> * state.0 + symbol as usize (found %s)" % term)
+        return
+    alphabet = 1 << sym_bits
+    # ---- (2) the stride compile() stores
+    dfa_agg = [s["rv"] for i, si, s in comp.assigns() if s["rv"]["k"] == "agg" and s["rv"]["ak"] == "adt" and s["rv"]["adt"].endswith("automata::DFA") and "fnames" in s["rv"]]
+    stride = None
+    why = None
+    if len(dfa_agg) == 1 and stride_field in dfa_agg[0]["fnames"]:
+        op = dfa_agg[0]["fields"][dfa_agg[0]["fnames"].index(stride_field)]
+        try:
+            stride = const_int(prog, comp, op)
+        except _NotConst as ex:
+            why = "%s (%s)" % (fexpr(comp, op), ex)
+    else:
+        why = "no unique DFA{..} literal with field %s" % stride_field
+    ctx.instance("R4-TABLE", {"stride_field": stride_field, "stored_by_compile": stride, "alphabet": alphabet})
+    if stride is None:
+        ctx.anchor("R4-TABLE", "stride-not-constant", "DFA.%s as stored by compile() is not a constant the rule can evaluate: %s" % (stride_field, why))
+    elif stride != alphabet:
+        ctx.violation("R4-TABLE", where, "stride",
+                      "compile() stores %s = %d but a symbol is a %s (%d values): DFA::transition(s, %d) reads index %d*s + %d = %d*(s+1) + %d, i.e. the entry of state s+1 "
+                      "for symbol %d (a wrong state instead of a dead transition; out of bounds from the last state)"
+                      % (stride_field, stride, sym_ty, alphabet, alphabet - 1, stride, alphabet - 1, stride, alphabet - 1 - stride, alphabet - 1 - stride)
+                      if 0 < stride < alphabet else
+                      "compile() stores %s = %d but a symbol is a %s (%d values): rows of the flattened table must be exactly %d entries apart" % (stride_field, stride, sym_ty, alphabet, alphabet),
+                      sites=[comp.loc, tr.loc], detail={"stride": stride, "alphabet": alphabet})
+    # ---- (3) the rows compile() emits: the closure handed to flat_map over enumerate(dfa_table)
+    # (followed backwards from the `states` field of the DFA{..} literal through the one-argument adaptors collect / into_boxed_slice / into_iter)
+    rc = None
+    chain = []
+    if len(dfa_agg) == 1 and "states" in dfa_agg[0]["fnames"]:
+        x = dfa_agg[0]["fields"][dfa_agg[0]["fnames"].index("states")]
+        for _ in range(8):
+            kind, d = _single_def(comp, x)
+            if kind != "call":
+                break
+            nm = callee_name(d) or ""
+            chain.append(_short_fn(nm))
+            if nm.endswith("Iterator::flat_map") and len(d["args"]) == 2:
+                ck, cd = _single_def(comp, d["args"][1])
+                if ck == "agg" and cd.get("ak") == "closure":
+                    rc = prog.body(cd["def"])
+                break
+            if len(d["args"]) != 1:
+                break
+            x = d["args"][0]
+    if rc is None:
+        ctx.anchor("R4-TABLE", "row-closure", "DFA.states is not the collected flat_map(<closure>) over the table rows (definition chain: %s)" % " <- ".join(chain))
+        return
+    try:
+        lo, n, mc = row_iterator(prog, rc, _ret_operand())
+    except _NotConst as ex:
+        ctx.instance("R4-TABLE", {"row_closure": rc.path, "understood": False})
+        ctx.anchor("R4-TABLE", "row-iterator", "the per-state row built by %s is not a mapped integer range with constant bounds: %s" % (rc.path, ex))
+        return
+    ctx.instance("R4-TABLE", {"row_closure": rc.path, "first_symbol": lo, "entries_per_state": n, "alphabet": alphabet})
+    if lo != 0 or n != alphabet:
+        ctx.violation("R4-TABLE", where, "row-width",
+                      "each state contributes the entries for symbols %d..%d (%d entries) to the flattened table, but DFA::transition addresses the row by any %s symbol "
+                      "(index = %s*state + symbol, %d values): symbols %d..=%d have no entry in their state's row, the index computed for them lies in the row of a later "
+                      "state (a wrong state instead of a dead transition) or past the end of the table"
+                      % (lo, lo + n - 1, n, sym_ty, stride_field, alphabet, n, alphabet - 1) if lo == 0 and 0 < n < alphabet else
+                      "each state contributes the entries for symbols %d..%d (%d entries) to the flattened table; the full alphabet 0..=%d (%d entries) is required"
+                      % (lo, lo + n - 1, n, alphabet - 1, alphabet),
+                      sites=[rc.loc], detail={"first": lo, "entries": n, "alphabet": alphabet})
+    # ---- (4) column j of a row is the edge for symbol j of that state
+    key = edges = ret = None
+    if mc is not None:
+        gets = [t for bb, t in mc.calls() if re.search(r"BTreeMap::<K, V, A>::get$", callee_name(t) or "") and len(t["args"]) == 2]
+        ret = fexpr(mc, _ret_operand())
+        if len(gets) == 1:
+            key = fexpr(mc, gets[0]["args"][1])
+            m = re.fullmatch(r"arg1\.(\d+)", fexpr(mc, gets[0]["args"][0]))
+            parent, agg = _closure_agg(prog, mc)
+            if m and agg is not None and parent is rc and int(m.group(1)) < len(agg["fields"]):
+                edges = fexpr(rc, agg["fields"][int(m.group(1))])
+    good = key in ("arg2", "(arg2 as u8)") and edges == "arg2.1.1" and ret is not None and "BTreeMap::get(" in ret
+    ctx.instance("R4-TABLE", {"map_closure": mc.path if mc else None, "lookup_key": key, "edge_map": edges, "entry": ret, "ok": good})
+    if not good:
+        ctx.violation("R4-TABLE", where, "column-key",
+                      "entry j of a state's row must be edges.get(&j) on the edge map of the enumerated (state, edges) pair; found key %s on %s giving %s" % (key, edges, ret),
+                      sites=[(mc or rc).loc])
+
+
+# ------------------------------------------------------------------------------------------------
 def run(ctx):
     ctx.explanation = (
         "Decided: (R1) the ε-wiring of sequence/choice/some/optional/many/From<&str>/predicate/empty/nothing is read from the source of automata.rs "
@@ -579,8 +876,9 @@ def run(ctx):
         "grammar the automaton as built (own Thompson builder driven by the templates read in R1, own power-set construction) accepts exactly the language "
         "of the expression under the documented regex meaning, the two decoder automata equal the tagged union of their members, and the model is checked "
         "exhaustively on small expressions; (R4) compile() guards every table row by the density assert and derives is_accepting/is_terminal/tags from "
-        "contains(stop)/empty row/member tags. NOT decided: correctness of the repository's power-set loop beyond R4 (worklist, closure), termination, "
-        "and Debug output.")
+        "contains(stop)/empty row/member tags; (R4-TABLE) the flattened transition table has rows of exactly 256 entries (symbols 0..=255 in order, each "
+        "looked up in the state's own edge map) and DFA::transition addresses it with the same stride, stored as a constant by compile(). NOT decided: "
+        "correctness of the repository's power-set loop beyond R4 (worklist, closure), termination, and Debug output.")
     ctx.assume("BTreeMap/BTreeSet/Vec/Rc behave as documented; NFA values are owned (clone copies), so in-place edits never alias another fragment")
     ctx.assume("the as-built model applies the wiring templates read by R1; where R1 reports a template as not understood, Thompson's fresh template is substituted and R2/R3 are relative to that")
     src = ctx.src
@@ -594,3 +892,4 @@ def run(ctx):
     else:
         rule_model(ctx, wiring, 2, 2)
     rule_r4(ctx)
+    rule_r4_table(ctx)
